@@ -240,6 +240,9 @@ fn check_history(report: &Report, rt: &Arc<tokio::runtime::Runtime>, hist: &[H])
 
 pub fn run(opts: Opts) -> i32 {
     let report = Report::new("C10", "exploration", opts.clone());
+    if let Some(path) = &opts.replay {
+        report.replay_by_re_enumeration(path);
+    }
     report.set_rule(
         "every parent history of <=4 (quick) / <=5 (thorough) ops from {message, answered run, open run (message+run_spawned), run_ended for the \
          oldest open run, side effects, manual checkpoint} x every selector {none, from_seq in 0..head, head+1, u64::MAX, every message id, \
